@@ -165,8 +165,14 @@ type c06nh struct {
 
 func c06Hostnames() []c06nh {
 	var l []c06nh
-	for _, dn := range []string{"router", "fw.dmz", "fw-[1]"} {
+	// The last name is longer than the 31 characters some devices
+	// show of a hostname; the device reporting exactly its first 31
+	// characters is another device.
+	for _, dn := range []string{"router", "fw.dmz", "fw-[1]", "paloalto-cluster-hamburg-dmz-fw-node-a"} {
 		hosts := []string{dn, "other", dn + ".example.com", "x" + dn, dn + "2", strings.ToUpper(dn), dn[:len(dn)-1]}
+		if len(dn) > 31 {
+			hosts = append(hosts, dn[:31], dn[:32])
+		}
 		for i, c := range dn {
 			if strings.ContainsRune(".[]*?+", c) {
 				hosts = append(hosts, dn[:i]+"-"+dn[i+1:], dn[:i]+"x"+dn[i+1:])
